@@ -81,10 +81,19 @@ def gen_request(r: random.Random, proto: str):
     return q
 
 
-def make_illegal(r: random.Random, q: dict):
-    kind = r.choice(["method-space", "method-ctl", "target-space", "target-ctl", "hname-space", "hname-colon",
-                     "hname-empty", "hname-nl", "hvalue-crlf", "hvalue-lf", "hvalue-lead-space", "hvalue-nul"])
+def make_illegal(r: random.Random, q: dict, proto: str = "h1"):
+    kinds = ["method-space", "method-ctl", "target-space", "target-ctl", "hname-space", "hname-colon",
+             "hname-empty", "hname-nl", "hvalue-crlf", "hvalue-lf", "hvalue-lead-space", "hvalue-nul"]
+    if proto == "h2":
+        # heads that are legal HTTP/1.1 but that HTTP/2 forbids (RFC 9113 8.2.2): the h2 package rejects them while it is
+        # HPACK-encoding, i.e. after earlier (new) fields of the same head have entered the encoder's dynamic table
+        kinds += ["h2-te", "h2-te"]
+    kind = r.choice(kinds)
     q["illegal"] = kind
+    if kind == "h2-te":
+        q["headers"] = [[f"X-Fresh-{r.randrange(10 ** 6)}", f"v{r.randrange(10 ** 6)}"] for _ in range(r.randint(1, 3))] + \
+            q["headers"] + [["TE", r.choice(["gzip", "deflate", "trailers, gzip"])]]
+        return q
     if kind == "method-space":
         q["method"] = "GE T"
     elif kind == "method-ctl":
@@ -302,7 +311,7 @@ def plan(tier, seed):
             for pos in range(3):
                 q = gen_request(r, proto)
                 if r.random() < 0.25:
-                    q = make_illegal(r, q)
+                    q = make_illegal(r, q, proto)
                 seq.append(q)
             seqs.append(seq)
         cases.append({"flavor": flavors[i % 3], "proto": proto, "seqs": seqs, "seed": r.randrange(1 << 30)})
